@@ -794,6 +794,10 @@ func main() {
 		wrappersMain(os.Args[2], os.Args[3])
 		return
 	}
+	if len(os.Args) == 4 && os.Args[1] == "-table" {
+		tableMain(os.Args[2], os.Args[3])
+		return
+	}
 	if len(os.Args) == 4 && os.Args[1] == "-ctor" {
 		ctorMain(os.Args[2], os.Args[3])
 		return
